@@ -221,11 +221,30 @@ func (g *flowGen) stmt(depth int) []string {
 		bound := 1 + tp.Draw(12)
 		head := []string{fmt.Sprintf("while.%s %s < %d,", lbl, v, bound)}
 		entryGuard := ""
+		condVar := ""   // the variable a pre / inv condition talks about
+		condBreak := "" // an assignment that falsifies the condition
 		if tp.Chance(1, 2) {
-			g.feats["inv"] = true
 			w := g.v()
-			inv := []string{fmt.Sprintf("%s <= %d", w, g.k()+tp.Draw(20)), fmt.Sprintf("%s <= %d", v, bound), fmt.Sprintf("%s >= %d", w, tp.Draw(3))}[tp.Pick(3, 2, 1)]
-			head = append(head, "\t\tinv "+inv+",")
+			condVar = w
+			var inv string
+			switch tp.Pick(3, 2, 2) {
+			case 0:
+				k := g.k() + tp.Draw(20)
+				inv, condBreak = fmt.Sprintf("%s <= %d", w, k), fmt.Sprintf("%s = %d", w, k+1+tp.Draw(50))
+			case 1:
+				inv, condVar = fmt.Sprintf("%s <= %d", v, bound), ""
+			default:
+				k := 1 + tp.Draw(3)
+				inv, condBreak = fmt.Sprintf("%s >= %d", w, k), fmt.Sprintf("%s = %d", w, tp.Draw(k))
+			}
+			kw := "inv"
+			g.feats["pre_here"] = false
+			if tp.Chance(1, 3) {
+				kw = "pre"
+				g.feats["pre_here"] = true
+			}
+			g.feats[kw] = true
+			head = append(head, "\t\t"+kw+" "+inv+",")
 			// usually established on entry by a guard around the loop
 			if tp.Chance(4, 5) {
 				entryGuard = inv
@@ -242,7 +261,10 @@ func (g *flowGen) stmt(depth int) []string {
 		save := g.vars
 		var others []string
 		for _, o := range g.vars {
-			if o != v {
+			// the condition's variable is left alone by ordinary statements, so
+			// that the implicit continue can re-prove the condition; only the
+			// explicit continue block below may disturb it
+			if o != v && (o != condVar || len(g.vars) < 3) {
 				others = append(others, o)
 			}
 		}
@@ -252,9 +274,19 @@ func (g *flowGen) stmt(depth int) []string {
 			g.feats["break"] = true
 			body = append(body, fmt.Sprintf("if %s {", g.cond()), "\tbreak."+lbl, "}")
 		}
-		if tp.Chance(1, 4) {
+		if tp.Chance(1, 3) || (condBreak != "" && g.feats["pre_here"] && tp.Chance(3, 4)) {
 			g.feats["continue"] = true
-			body = append(body, fmt.Sprintf("if %s {", g.cond()), fmt.Sprintf("\t%s += 1", v), "\tcontinue."+lbl, "}")
+			cc := g.cond()
+			if tp.Chance(2, 3) {
+				// usually taken on some iteration
+				cc = fmt.Sprintf("%s <> %d", v, tp.Draw(bound+1))
+			}
+			blk := []string{fmt.Sprintf("if %s {", cc), fmt.Sprintf("\t%s += 1", v)}
+			if condVar != "" && condVar != v && condBreak != "" && tp.Chance(2, 3) {
+				// a near miss: the pre / inv condition must be re-proven here
+				blk = append(blk, "\t"+condBreak)
+			}
+			body = append(body, append(blk, "\tcontinue."+lbl, "}")...)
 		}
 		g.vars = save
 		step := []string{fmt.Sprintf("%s += 1", v), fmt.Sprintf("%s += 2", v), fmt.Sprintf("%s = %s + 1", v, v)}[tp.Pick(5, 1, 2)]
